@@ -477,7 +477,11 @@ def applyGhost (m : MonState) (g : Ghost) : MonState × Fail :=
         -- cannot tell where that is): every entry that exists now may be handed out again
         -- (the window entry records the log, not the subscription: an unacknowledged forward of
         -- ANY of the member's QoS>0 subscriptions reading this log rewinds this group too)
-        let qosMember := !clean && lm.subs.any (fun s => s.idx == g.idx && s.closedAt.isNone && s.qos != 0)
+        let qosMember := !clean && (lm.subs.any (fun s => s.idx == g.idx && s.closedAt.isNone && s.qos != 0) ||
+          -- ... or of an ENDED subscription on this log whose forwards are still unacknowledged
+          lm.pendingAcks.any (fun p => match p.subIx with
+            | some i => (match lm.subs[i]? with | some s => s.idx == g.idx | none => true)
+            | none => true))
         let g := if qosMember then { g with rewinds := g.rewinds ++ [(0, (histOf m g.idx).length)] } else g
         let g := { g with delivered := g.delivered.filter (fun a => !retract.any (fun r => r.1 == g.name && r.2.1 == g.idx && r.2.2 == a)) }
         if unknown then { g with fuzzy := true } else g) }
